@@ -211,7 +211,24 @@ class SchemaDocGen:
             if ot == "subscription":
                 f = r.choice(self.types[rt]["fields"])
                 ut = unwrap(f["type"])
-                sel = [G.field(f["name"], None, self.args_for(f["args"]), [], self.selection(ut, 1, names) if self.kind(ut) in ("object", "interface", "union") else None)]
+                comp = self.kind(ut) in ("object", "interface", "union")
+                first = G.field(f["name"], None, self.args_for(f["args"]), [], self.selection(ut, 1, names) if comp else None)
+                sel = [first]
+                # the ONE root field may be selected several times under the same response key (directly, in an inline fragment,
+                # through a fragment on the root type): CollectFields still yields a single entry, so the document stays valid
+                how = r.below(8)
+                if how < 4:
+                    again = G.field(f["name"], None, copy.deepcopy(first["args"]), [], [G.field("__typename")] if comp else None)
+                    if how == 0:
+                        sel.append(again)
+                    elif how == 1:
+                        sel.insert(0, G.inline([again], None, []))
+                    elif how == 2:
+                        sel.append(G.inline([again], rt, []))
+                    else:
+                        fname = "SubRoot%d" % i
+                        defs.append(G.frag(fname, [again], rt))
+                        sel.append(G.spread(fname, []))
             else:
                 sel = self.selection(rt, 0, names)
             name = None if (nops == 1 and r.chance(1, 6)) else "Op%d" % i
@@ -307,7 +324,8 @@ OPERATORS = ["rename-field", "leaf-subselection", "composite-no-selection", "unk
              "impossible-inline", "inline-on-unknown", "unknown-directive", "misplaced-directive", "repeated-directive",
              "bad-directive-arg", "dup-operation", "extra-anonymous", "subscription-two-roots", "undefined-variable-in-directive",
              "inline-on-enum", "inline-on-input", "inline-on-scalar", "retarget-inline", "fragment-on-enum", "fragment-on-input",
-             "unreached-self-cycle", "unreached-mutual-cycle", "fault-behind-unreached-cycle"]
+             "unreached-self-cycle", "unreached-mutual-cycle", "fault-behind-unreached-cycle",
+             "subscription-second-alias", "subscription-second-alias-inline", "subscription-second-alias-spread"]
 
 
 def inject(doc, operator, site, disjoint_type="Lone", names=None):
@@ -473,6 +491,21 @@ def inject(doc, operator, site, disjoint_type="Lone", names=None):
         x = nth([o for o in ops if o["opType"] == "subscription"])
         if not x: return None
         x["sel"].append(G.field("__typename", "second"))
+    elif operator in ("subscription-second-alias", "subscription-second-alias-inline", "subscription-second-alias-spread"):
+        # the SAME root field once more under another response key: two entries in the collected field set
+        x = nth([o for o in ops if o["opType"] == "subscription" and o["sel"] and o["sel"][0]["k"] == "field"])
+        if not x: return None
+        again = copy.deepcopy(x["sel"][0])
+        again["hasAlias"], again["alias"] = True, "again"
+        if operator == "subscription-second-alias":
+            x["sel"].append(again)
+        elif operator == "subscription-second-alias-inline":
+            x["sel"].append(G.inline([again], None, []))
+        else:
+            on = (names or {}).get("subroot")
+            if on is None: return None
+            d["defs"].append(G.frag("SecondRoot", [again], on))
+            x["sel"].append(G.spread("SecondRoot", []))
     else:
         return None
     return d
